@@ -515,6 +515,32 @@ def run_zone(label, tz, iana, tier, seed, scratch_root, gap_rule):
                 m = model.call(f"FNAME {sec * 1000000}").split(" ")
                 if m[0] != stamp[len(stamp) - len("YYYY-MM-DD_hhmmssZ.mhl"):-4] or m[1] != str(sec):
                     ev.disagree.append((sc, m, stamp, "file-name stamp differs from the model"))
+        # ------------------------------------------------------------ the same history flattened in ANOTHER zone: the hash dates
+        # copied into the packing list still denote the instants at which the digests were taken
+        if readable:
+            other = "EST5EDT" if tz not in ("EST5EDT",) and "New_York" not in tz else "JST-9"
+            dest = os.path.join(scratch_root, re.sub(r"[^A-Za-z0-9]+", "_", label) + "_flat")
+            os.makedirs(dest)
+            fr = child(other, [{"op": "flatten", "root": root, "dest": dest}])["replies"][0]
+            pls = [os.path.relpath(os.path.join(dp, f), dest) for dp, _, fs in os.walk(dest) for f in fs if f.endswith(".mhl")]
+            if fr["outcome"] != ["exit", 0] or len(pls) != 1:
+                ev.disagree.append((dict(scen, flatten_TZ=other), "exit 0 and one packing list", [fr["outcome"], pls], "flatten of the fresh history did not succeed"))
+            else:
+                pl = read_manifest_raw(os.path.join(dest, pls[0]))
+                src = {}
+                for rel, txt in man["hashdates"]:
+                    if rel != "roothash" and rel in man["files"]:
+                        src.setdefault(rel, []).append(txt)
+                for rel, txt in pl["hashdates"]:
+                    if rel not in src:
+                        continue
+                    ev.cases.append(((label, "flatten-hashdate", rel), True, None))
+                    ev.count("flatten.hashdate")
+                    got = parse_iso(txt)
+                    want = sorted(x[0] for x in map(parse_iso, src[rel]) if x)
+                    if got is None or got[0] not in want:
+                        ev.violate.append(("flatten-hashdate-instant", dict(scen, flatten_TZ=other, path=rel, written=txt), src[rel], txt,
+                                           "a hash date copied into the packing list no longer denotes the instant at which the digest was taken"))
         # ------------------------------------------------------------ datetime_isostring on arbitrary naive values
         for (w, us, fold, keep), txt in zip(probes, iso_rep["texts"]):
             sc = dict(scen, op="datetime_isostring", wall=w, usec=us, fold=fold, keep=keep)
